@@ -92,10 +92,13 @@ theorem windowLines_chars (P : Prog) (scr : Nat) (g : Grid) (h : windowLines P s
   · cases hch
   · rcases render_chars _ _ _ _ _ hr l hl ch hch with h1 | ⟨h1, h2⟩
     · exact .inl h1
-    · refine .inr ⟨⟨P.spec scr, spec_mem_of_ne P scr ?_, t, ht, h1⟩, h2⟩
-      rcases ht with ht | ht
-      · exact .inl (by simp [ht])
-      · exact .inr (.inl (by simp [ht]))
+    · refine .inr ⟨⟨P.spec scr, spec_mem_of_ne P scr ?_, ?_⟩, h2⟩
+      · rcases ht with ht | ht
+        · exact .inl (by simp [ht])
+        · exact .inr (.inl (by simp [ht]))
+      · rcases ht with ht | ht
+        · exact .inl (by simp [ht, h1])
+        · exact .inr (by simp [ht, h1])
 
 theorem windowLines_no_nl (P : Prog) (scr : Nat) (g : Grid) (h : windowLines P scr = .ok g) :
     ∀ l ∈ g, '\n' ∉ l := by
